@@ -650,10 +650,14 @@ def check_c11p(trace, res: Result, hs: Hasher):
     if not _cmp_summaries(res, "C11", "result-differs-with-instruction-cache", summary(plain["sim"]), summary(cached["sim"]),
                           ["regs", "mem", "output", "exit_code", "instruction_count"], mode="single"):
         return
-    if im.accesses != nfetch or im.accesses != cached["sim"].state.performance_metrics.instruction_count:
-        # exactly one access per executed instruction in single-cycle mode, and accesses == fetches performed
-        res.violate("C11", "fetch-count", expected=nfetch, got=im.accesses, mode="single",
-                    instruction_count=cached["sim"].state.performance_metrics.instruction_count)
+    # exactly one access per executed instruction in single-cycle mode, and accesses == fetches performed.  The
+    # executed instructions are counted by the harness (completed steps; a step that ends in a fault has fetched its
+    # instruction too) - whether the simulator's own instruction counter includes the faulting instruction is not
+    # something the property states
+    executed = len(cached["recs"])
+    if im.accesses != nfetch or im.accesses not in ((executed, executed + 1) if cached["exc"] else (executed,)):
+        res.violate("C11", "fetch-count", expected=nfetch, got=im.accesses, mode="single", executed_instructions=executed,
+                    faulted=bool(cached["exc"]))
         return
     if (im.hits, bool(im.last_was_hit)) != (refc.hits, bool(refc.last)) and nfetch:
         res.violate("C11", "hit-count", expected=[refc.hits, refc.last], got=[im.hits, im.last_was_hit], mode="single")
